@@ -54,6 +54,18 @@ fn run(ctx: &Ctx) {
         let mut cases = ctx.sample_strategy(check, i as u64, &strat, per);
         let (lo, hi) = working_range(a);
         cases.retain(|c| c.n.bits() >= lo && c.n.bits() <= hi && !c.factors.is_empty());
+        // a perfect power m^k reaches the selector as m: m must lie in the working range too
+        cases.retain(|c| {
+            let mut mult: Vec<u32> = vec![];
+            let mut i = 0;
+            while i < c.factors.len() {
+                let j = c.factors[i..].iter().take_while(|f| **f == c.factors[i]).count();
+                mult.push(j as u32);
+                i += j;
+            }
+            let g = mult.iter().fold(0u32, |a, &b| num_integer::Integer::gcd(&a, &b));
+            g < 2 || c.n.bits() / g >= lo
+        });
         for (j, c) in cases.iter_mut().enumerate() {
             if matches!(*a, "auto" | "siqs" | "mpqs" | "qs" | "ecm") {
                 c.prefs.threads = match j % 6 {
@@ -63,7 +75,22 @@ fn run(ctx: &Ctx) {
                 };
             }
         }
-        run_batch(ctx, check, "opt", &cases, timeout, &judge_c02, &mut l);
+        // completeness under a thread pool is C04's clause ("complete whenever the single-threaded run is complete"):
+        // an incomplete answer of a threaded case is a C02 violation only if the same call without a pool is incomplete too
+        let judge = |c: &FCase, o: &Outcome| -> Result<(), Fail> {
+            match judge_c02(c, o) {
+                Err(f) if c.prefs.threads.unwrap_or(1) > 1 && (f.class.ends_with("|incomplete") || f.class.ends_with("|failure")) => {
+                    let mut b = c.clone();
+                    b.prefs.threads = None;
+                    match crate::worker::run_jobs("opt", &[b.job()], 1, &|_| timeout) {
+                        Ok(r) if !r.is_empty() => judge_c02(&b, &Outcome::from_job(&r[0])).map_err(|_| f),
+                        _ => Err(f),
+                    }
+                }
+                r => r,
+            }
+        };
+        run_batch(ctx, check, "opt", &cases, timeout, &judge, &mut l);
     }
     // published composites that fool small base sets (psi_k = smallest strong pseudoprime to the first k prime bases,
     // further spsp(2,3,5[,7]) and Carmichael numbers), alone, squared and times small / factor-base primes: the
